@@ -310,8 +310,9 @@ func runC16_5(c *Ctx) {
 		sentinel := p.Global(authPkg, s.sentinel)
 		key := s.typ + " once-closure"
 		var once *ssa.Function
+		// the closure handed to the session: the one that does the exchange (directly or through a helper of the package)
 		for _, a := range fn.AnonFuncs {
-			if len(CallsTo(a, preReceive)) > 0 {
+			if len(p.callsReaching(a, preReceive)) > 0 {
 				once = a
 			}
 		}
@@ -352,10 +353,15 @@ func runC16_5(c *Ctx) {
 			continue
 		}
 		ioOK := true
-		for _, call := range AllCalls(once) {
-			if IsCallTo(call, preSend, preReceive) && !BlockDominatesInstr(casTrue, call) {
+		nIO := 0
+		for _, call := range append(p.callsReaching(once, preSend), p.callsReaching(once, preReceive)...) {
+			nIO++
+			if !BlockDominatesInstr(casTrue, call) {
 				ioOK = false
 			}
+		}
+		if nIO == 0 {
+			ioOK = false
 		}
 		retOK := false
 		w := &Walk{P: p}
